@@ -2,6 +2,23 @@
 import pcheck
 
 
+def _ROWS(t):
+    "multi-column rows: columns produced in different blocks; one value feeding several columns"
+    sfx = "" if t == "quick" else "_t"
+    return [("MCQueryGen_rows%s.cfg" % sfx, None, {"cap": {"quick": 240, "thorough": 1100}}),
+            ("MCQueryGen_rowsn%s.cfg" % sfx, None, {"cap": {"quick": 240, "thorough": 1500}})]
+
+
+def _IFFIRST(t):
+    "conditionals with First() in the test / an arm, distinct constants in the arms"
+    return [("MCQueryGen_iffirst%s.cfg" % ("" if t == "quick" else "_t"), None, {"cap": {"quick": 300, "thorough": 1500}})]
+
+
+def _NONNULL(cfg):
+    "the CMS-only isNonnull(ref) guard profile, on both CMS backends"
+    return [(cfg, None, {"backend": b, "md10": True, "cap": {"quick": 120, "thorough": 1400}}) for b in ("cms_aod", "cms_miniaod")]
+
+
 def _first_math(t):
     if t["k"] == "Math":
         return t["a"]
@@ -15,34 +32,38 @@ SPECS = {
     "C01": pcheck.PSpec(
         "C01",
         clauses=["Accepts", "RowsMatch", "SpuriousFault", "Compiles", "BookingFault"],
-        profiles={"quick": [("MCQueryGen_core.cfg", None), ("MCQueryGen_tuples.cfg", None)],
-                  "thorough": [("MCQueryGen_core_t.cfg", None), ("MCQueryGen_tuples_t.cfg", None), ("MCQueryGen_fault.cfg", None)]},
-        cap={"quick": 1300, "thorough": 16000},
+        profiles={"quick": [("MCQueryGen_core.cfg", None), ("MCQueryGen_tuples.cfg", None),
+                            ("MCQueryGen_let.cfg", None, {"cap": {"quick": 260, "thorough": 3000}}),
+                            ("MCQueryGen_moments.cfg", None, {"backend": "atlas", "cap": {"quick": 160, "thorough": 2000}})] + _ROWS("quick") + _IFFIRST("quick"),
+                  "thorough": [("MCQueryGen_core_t.cfg", None), ("MCQueryGen_tuples_t.cfg", None), ("MCQueryGen_fault.cfg", None),
+                               ("MCQueryGen_let_t.cfg", None, {"cap": {"quick": 260, "thorough": 3000}}),
+                               ("MCQueryGen_moments_t.cfg", None, {"backend": "atlas", "cap": {"quick": 160, "thorough": 2000}})] + _ROWS("thorough") + _IFFIRST("thorough")},
+        cap={"quick": 2200, "thorough": 24000},
     ),
     "C02": pcheck.PSpec(
         "C02",
         clauses=["PackageComplete", "NoResidualDirective", "Compiles", "BookingFault", "OneTree"],
-        profiles={"quick": [("MCQueryGen_core.cfg", None), ("MCQueryGen_schema.cfg", None), ("MCQueryGen_fault.cfg", None)],
-                  "thorough": [("MCQueryGen_core_t.cfg", None), ("MCQueryGen_schema_t.cfg", None), ("MCQueryGen_fault_t.cfg", None)]},
+        profiles={"quick": [("MCQueryGen_core.cfg", None), ("MCQueryGen_schema.cfg", None), ("MCQueryGen_fault.cfg", None)] + _ROWS("quick"),
+                  "thorough": [("MCQueryGen_core_t.cfg", None), ("MCQueryGen_schema_t.cfg", None), ("MCQueryGen_fault_t.cfg", None)] + _ROWS("thorough")},
         events={"quick": 3, "thorough": 3},
-        cap={"quick": 1500, "thorough": 16000},
+        cap={"quick": 1900, "thorough": 19000},
         nontrivial="translated",
     ),
     "C03": pcheck.PSpec(
         "C03",
         clauses=["SchemaMatches", "StorageDistinct", "DescriptorMatches", "Accepts", "Refuses", "RowsMatch", "Compiles", "BookingFault"],
-        profiles={"quick": [("MCQueryGen_schema.cfg", None)],
-                  "thorough": [("MCQueryGen_schema_t.cfg", None)]},
+        profiles={"quick": [("MCQueryGen_schema.cfg", None)] + _ROWS("quick"),
+                  "thorough": [("MCQueryGen_schema_t.cfg", None)] + _ROWS("thorough")},
         events={"quick": 6, "thorough": 12},
-        cap={"quick": 800, "thorough": 12000},
+        cap={"quick": 1200, "thorough": 15000},
     ),
     "C04": pcheck.PSpec(
         "C04",
         clauses=["FaultMissed", "SpuriousFault", "RowsMatch", "Accepts", "Compiles", "BookingFault"],
-        profiles={"quick": [("MCQueryGen_fault.cfg", None), ("MCQueryGen_guard.cfg", None)],
-                  "thorough": [("MCQueryGen_fault_t.cfg", None), ("MCQueryGen_guard_t.cfg", None)]},
+        profiles={"quick": [("MCQueryGen_fault.cfg", None), ("MCQueryGen_guard.cfg", None)] + _NONNULL("MCQueryGen_nonnull.cfg") + _IFFIRST("quick"),
+                  "thorough": [("MCQueryGen_fault_t.cfg", None), ("MCQueryGen_guard_t.cfg", None)] + _NONNULL("MCQueryGen_nonnull_t.cfg") + _IFFIRST("thorough")},
         events={"quick": 5, "thorough": 40},
-        cap={"quick": 2200, "thorough": 16000},
+        cap={"quick": 2800, "thorough": 19000},
         math=True,
     ),
     "C05": pcheck.PSpec(
@@ -61,6 +82,8 @@ SPECS = {
         profiles={t: [("MCQueryGen_c06_%s.cfg" % b, None, {"backend": b, "declv": "none"}) for b in pcheck.ALL_BACKENDS]
                      + [("MCQueryGen_c06z_%s.cfg" % b, None, {"backend": b, "declv": "fresh_Z"}) for b in pcheck.ALL_BACKENDS]
                      + [("MCQueryGen_c06_%s.cfg" % b, None, {"backend": b, "declv": "replace_A"}) for b in pcheck.ALL_BACKENDS]
+                     + [("MCQueryGen_c06z_%s.cfg" % b, None, {"backend": b, "declv": v, "cap": {"quick": 60, "thorough": 2000}})
+                        for b in pcheck.ALL_BACKENDS for v in ("both_za", "both_az")]
                   for t in ("quick", "thorough")},
         events={"quick": 8, "thorough": 24},
         cap={"quick": 1000, "thorough": 20000},
@@ -79,10 +102,14 @@ SPECS = {
     "C11": pcheck.PSpec(
         "C11",
         clauses=["Accepts", "Compiles", "BookingFault", "RowsMatch", "SpuriousFault", "SchemaMatches"],
-        profiles={"quick": [("MCQueryGen_userfn.cfg", None, {"fnmd": True}), ("MCQueryGen_userfn_d.cfg", None, {"fnmd": True})],
-                  "thorough": [("MCQueryGen_userfn_t.cfg", None, {"fnmd": True})]},
+        profiles={"quick": [("MCQueryGen_userfn.cfg", None, {"fnmd": True}), ("MCQueryGen_userfn_d.cfg", None, {"fnmd": True}),
+                            ("MCQueryGen_userfn_f.cfg", None, {"fnmd": True, "cap": {"quick": 210, "thorough": 2500}}),
+                            ("MCQueryGen_userfn_e.cfg", None, {"fnmd": True, "cap": {"quick": 300, "thorough": 3000}})],
+                  "thorough": [("MCQueryGen_userfn_t.cfg", None, {"fnmd": True}),
+                               ("MCQueryGen_userfn_ft.cfg", None, {"fnmd": True, "cap": {"quick": 210, "thorough": 2500}}),
+                               ("MCQueryGen_userfn_et.cfg", None, {"fnmd": True, "cap": {"quick": 300, "thorough": 3000}})]},
         events={"quick": 6, "thorough": 16},
-        cap={"quick": 800, "thorough": 20000},
+        cap={"quick": 1300, "thorough": 25000},
     ),
     "C12": pcheck.PSpec(
         "C12",
